@@ -395,11 +395,24 @@ func runRawCase(w *out.W, id string, sc *scenario, tags ...string) {
 }
 
 func planCmds(p *migrate.Plan) string {
-	ss := make([]string, len(p.Changes))
-	for i, c := range p.Changes {
-		ss[i] = c.Cmd
+	var b strings.Builder
+	for _, c := range p.Changes {
+		b.WriteString(c.Cmd)
+		if len(c.Args) > 0 {
+			fmt.Fprintf(&b, " ARGS %v", c.Args)
+		}
+		switch r := c.Reverse.(type) { // the statement, its comment and its reverse statements
+		case nil:
+		case string:
+			b.WriteString(" REVERSE " + r)
+		case []string:
+			b.WriteString(" REVERSE " + strings.Join(r, " | "))
+		default:
+			fmt.Fprintf(&b, " REVERSE %v", r)
+		}
+		b.WriteString(" -- " + c.Comment + "; ")
 	}
-	return strings.Join(ss, "; ")
+	return b.String()
 }
 
 func clip(s string) string {
@@ -1237,7 +1250,7 @@ func schTags(sc *scenario, tags ...string) []string {
 
 func genSchemas(w *out.W, tier string) {
 	w.Exhaust = true
-	w.Rule = "change sets over two schemas with same-named tables; every case is planned 3 times from the same slice value (DetachCycles+SortChanges, SortChanges of the same detached list twice, mysql.DefaultPlan, postgres.DefaultPlan): the plans must be identical, the slice, the Changes of its ModifyTables and the tables' ForeignKeys untouched, the LAST plan is the one judged and compared. (a) exhaustive: the three tables s1.t1, s2.t1, s1.t2 x every role created/dropped/modified/kept (4^3) x every FK graph without self loops incl. cross-schema keys (2^6; thorough: with self loops 2^9) x readings of a modified table's edges (quick 2; thorough 4, 2 on graphs with self loops) x every input order. (b) a cycle of length 2 or 3 in schema s1 (all created / all dropped / all modified, 4 readings) x for each cycle table a same-named twin in s2 that is absent/created/dropped/modified/kept (5^L - 1) x twin keys (none / the same cycle among the twins / twin -> its namesake in s1 / namesake -> twin) x order (schema by schema, twins first, alternating, reversed) x with and without the schema-level changes of a realm diff in front (AddSchema when all tables of the schema are created, DropSchema when all are dropped, ModifySchema otherwise). (c) seeded random: 4..8 tables over 3 schemas x 3 base names. Oracle as in the other stages (tables identified by (schema, name)) + replan-differs, input-mutated, schema-change-not-once (each schema-level change is in the executed plan exactly once). Non-trivial = the planned order differs from the input order"
+	w.Rule = "change sets over two schemas with same-named tables; every case is planned 3 times from the same slice value (DetachCycles+SortChanges, SortChanges of the same detached list twice, mysql.DefaultPlan, postgres.DefaultPlan): the plans must be identical, the slice, the Changes of its ModifyTables and the tables' ForeignKeys untouched, the LAST plan is the one judged and compared. (a) exhaustive: the three tables s1.t1, s2.t1, s1.t2 x every role created/dropped/modified/kept (4^3) x every FK graph without self loops incl. cross-schema keys (2^6; thorough: with self loops 2^9) x readings of a modified table's edges (quick 2; thorough 4, 2 on graphs with self loops) x every input order. (b) a cycle of length 2 or 3 in schema s1 (all created / all dropped / all modified, 4 readings) x for each cycle table a same-named twin in s2 that is absent/created/dropped/modified/kept (5^L - 1) x twin keys (none / the same cycle among the twins / twin -> its namesake in s1 / namesake -> twin) x order (schema by schema, twins first, alternating, reversed) x with and without the schema-level changes of a realm diff in front (AddSchema when all tables of the schema are created, DropSchema when all are dropped, ModifySchema otherwise). (c) seeded random: 4..8 tables over 3 schemas x 3 base names (1 case in 4: one of the three is \"no schema object\"). Oracle as in the other stages (tables identified by (schema, name)) + replan-differs, input-mutated, schema-change-not-once (each schema-level change is in the executed plan exactly once). Non-trivial = the planned order differs from the input order"
 	id := 0
 	// (a)
 	{
@@ -1333,7 +1346,11 @@ func genSchemas(w *out.W, tier string) {
 	}
 	for k := 0; k < count; k++ {
 		var names []int
-		for s := 1; s <= 3; s++ {
+		lo := 1
+		if r.Chance(1, 4) {
+			lo = 0 // one of the three "schemas" is: no *schema.Schema at all (SameSchema(nil, s) = false)
+		}
+		for s := lo; s < lo+3; s++ {
 			for b := 1; b <= 3; b++ {
 				names = append(names, qname(s, b))
 			}
